@@ -3790,14 +3790,15 @@ static int bufr_load_datasubsets( FILE *fp, BUFR_Dataset *dts, int lineno, BUFR_
 
       if (ptr[i] == '(')  /* AF bits */
          {
-			unsigned long long afbits;
+			unsigned long long afbits = 0;
          int j;
 
          tok = strtok_r( NULL, " \t\n\r():", &ptr );
-         sscanf( tok, "%llx", &afbits );
+         if (tok != NULL) /* nothing may follow the parenthesis */
+            sscanf( tok, "%llx", &afbits );
          if (debug)
             {
-            sprintf( errmsg, _("   *** has AF: %s -> %llx\n"), tok, afbits );
+            sprintf( errmsg, _("   *** has AF: %s -> %llx\n"), tok ? tok : "", afbits );
             bufr_print_debug( errmsg );
             }
 
